@@ -128,16 +128,19 @@ theorem early_class : RegOnlyWf earlyApp = true ∧ RegOnly earlyApp = true := b
 theorem early_seq : obsR (Model.Seq.runMvp1 earlyApp ⟨ctx0, 0⟩ 100).halt (Model.Seq.runMvp1 earlyApp ⟨ctx0, 0⟩ 100).final.ctx =
     (some .ret, [0#32, 4#32, 0#32, 4#32, 1#32, 0#32]) := by decide +kernel
 
-/-- MVP-6.0 with one unit ends "past the end" in the second round: `s0 = 2` -/
-theorem early_p1 : obsR (run earlyApp ctx0 1 1 20000).halt (run earlyApp ctx0 1 1 20000).final.ctx =
-    (some .offEnd, [0#32, 2#32, 0#32, 4#32, 0#32, 0#32]) := by
+/-- MVP-6.0 (with `fetchUnit.reset` clearing `complete`, /repo commit 52aa070): all four rounds, `ret` with `s0 = 4`.
+Before the fix the run ended "past the end" in the second round with `s0 = 2` (R60-defect-1): the correctly predicted
+`jj: j l0` left `complete` set while the evicted line of `l0` was being fetched. -/
+theorem early_p1 : obsR (run earlyApp ctx0 1 1 60000).halt (run earlyApp ctx0 1 1 60000).final.ctx =
+    (some .ret, [0#32, 4#32, 0#32, 4#32, 1#32, 0#32]) := by
   rw [← Proofs.Mvp60Fast.runFast_eq_run]; decide +kernel
 
-theorem early_p2 : obsR (run earlyApp ctx0 2 2 20000).halt (run earlyApp ctx0 2 2 20000).final.ctx =
-    (some .offEnd, [0#32, 2#32, 0#32, 4#32, 0#32, 0#32]) := by
+theorem early_p2 : obsR (run earlyApp ctx0 2 2 60000).halt (run earlyApp ctx0 2 2 60000).final.ctx =
+    (some .ret, [0#32, 4#32, 0#32, 4#32, 1#32, 0#32]) := by
   rw [← Proofs.Mvp60Fast.runFast_eq_run]; decide +kernel
 
-theorem early_p1_halt : (run earlyApp ctx0 1 1 20000).halt = some .offEnd := by
+/-- the run goes through the window of the former defect: more than 12616 ticks (where the unfixed machine stopped) -/
+theorem early_p1_ticks : 12616 < (run earlyApp ctx0 1 1 60000).ticks := by
   rw [← Proofs.Mvp60Fast.runFast_eq_run]; decide +kernel
 
 theorem early_wf : Proofs.Refine.WfApp earlyApp := { small := by decide, regs := by decide +kernel, nofwd := by decide +kernel }
